@@ -12,60 +12,81 @@ Proof.
   destruct b; cbn [orb gd_b2n]; [lia|]. intros H. specialize (IH H). lia.
 Qed.
 
+Lemma gd_b2n_sum_zero : forall l : list bool,
+  (fold_right N.add 0 (map gd_b2n l) =? 0) = negb (existsb (fun b => b) l).
+Proof.
+  induction l as [|b l IH]; cbn [existsb map fold_right]; [reflexivity|].
+  destruct b; cbn [orb gd_b2n negb].
+  - apply N.eqb_neq. lia.
+  - rewrite N.add_0_l. exact IH.
+Qed.
+
 (* the components of gd_doc_walk_obs_with, named *)
 Definition dr_dedup (doc : document) : list bool :=
   map (fun o => gd_is_limit (snd (gd_doc_walk gd_mode_dedup (gd_doc_frags doc) (snd o)))) (gd_doc_ops doc).
+Definition dr_sel (ty : vs_typing) (doc : document) : list bool :=
+  map (fun r => gd_is_limit (snd r)) (map (vs_doc_walk ty doc) (gd_doc_ops doc)).
 
-Lemma dr_obs_shape : forall swallow doc,
-  let o := gd_doc_walk_obs_with swallow doc in
+Lemma dr_obs_shape : forall swallow ty doc,
+  let o := gd_doc_walk_obs_with swallow ty doc in
+  let before := existsb (fun b => b) (dr_dedup doc) || existsb (fun b => b) (dr_sel ty doc) in
   exists subs : N,
     gwo_recursion o
-    = fold_right N.add 0 (map gd_b2n (dr_dedup doc))
-      + gd_b2n (negb swallow && gwo_defer_truncated o && negb (existsb (fun b => b) (dr_dedup doc)))
+    = fold_right N.add 0 (map gd_b2n (dr_dedup doc)) + fold_right N.add 0 (map gd_b2n (dr_sel ty doc))
+      + gd_b2n (negb swallow && gwo_defer_truncated o && negb before)
       + subs
     /\ gwo_used_limit o = gd_b2n (existsb (fun b => b) (dr_dedup doc))
-    /\ (forall swallow', let o' := gd_doc_walk_obs_with swallow' doc in
+    /\ gwo_sel_limit o = fold_right N.add 0 (map gd_b2n (dr_sel ty doc))
+    /\ (forall swallow', let o' := gd_doc_walk_obs_with swallow' ty doc in
           gwo_recursion o'
-          = fold_right N.add 0 (map gd_b2n (dr_dedup doc))
-            + gd_b2n (negb swallow' && gwo_defer_truncated o' && negb (existsb (fun b => b) (dr_dedup doc)))
+          = fold_right N.add 0 (map gd_b2n (dr_dedup doc)) + fold_right N.add 0 (map gd_b2n (dr_sel ty doc))
+            + gd_b2n (negb swallow' && gwo_defer_truncated o' && negb before)
             + subs
           /\ gwo_used_limit o' = gwo_used_limit o /\ gwo_defer_root o' = gwo_defer_root o
-          /\ gwo_uncond o' = gwo_uncond o /\ gwo_defer_truncated o' = gwo_defer_truncated o).
+          /\ gwo_uncond o' = gwo_uncond o /\ gwo_defer_truncated o' = gwo_defer_truncated o
+          /\ gwo_sel_limit o' = gwo_sel_limit o /\ gwo_undefined o' = gwo_undefined o).
 Proof.
-  intros swallow doc. unfold gd_doc_walk_obs_with, dr_dedup.
-  cbn [gwo_recursion gwo_used_limit gwo_defer_root gwo_uncond gwo_defer_truncated].
-  eexists. split; [reflexivity|]. split; [reflexivity|].
-  intros swallow'. cbn [gwo_recursion gwo_used_limit gwo_defer_root gwo_uncond gwo_defer_truncated].
+  intros swallow ty doc. unfold gd_doc_walk_obs_with, dr_dedup, dr_sel.
+  cbn [gwo_recursion gwo_used_limit gwo_defer_root gwo_uncond gwo_defer_truncated gwo_sel_limit gwo_undefined].
+  eexists. split; [reflexivity|]. split; [reflexivity|]. split; [reflexivity|].
+  intros swallow'.
+  cbn [gwo_recursion gwo_used_limit gwo_defer_root gwo_uncond gwo_defer_truncated gwo_sel_limit gwo_undefined].
   repeat split; reflexivity.
 Qed.
 
 (* a @defer walk that ended with the limit error is never swallowed *)
-Theorem defer_limit_reported : forall doc,
-  gwo_defer_truncated (gd_doc_walk_obs doc) = true -> 1 <= gwo_recursion (gd_doc_walk_obs doc).
+Theorem defer_limit_reported : forall ty doc,
+  gwo_defer_truncated (gd_doc_walk_obs ty doc) = true -> 1 <= gwo_recursion (gd_doc_walk_obs ty doc).
 Proof.
-  intros doc Ht. unfold gd_doc_walk_obs in *.
-  destruct (dr_obs_shape false doc) as (subs & Hr & _ & _).
+  intros ty doc Ht. unfold gd_doc_walk_obs in *.
+  destruct (dr_obs_shape false ty doc) as (subs & Hr & _ & _).
   cbv zeta in Hr. rewrite Hr, Ht. cbn [negb andb].
   destruct (existsb (fun b => b) (dr_dedup doc)) eqn:E.
   - pose proof (gd_b2n_sum_pos _ E). lia.
-  - cbn [negb gd_b2n]. lia.
+  - destruct (existsb (fun b => b) (dr_sel ty doc)) eqn:E2.
+    + pose proof (gd_b2n_sum_pos _ E2). lia.
+    + cbn [orb negb gd_b2n]. lia.
 Qed.
 
-(* the repair adds that one diagnostic and nothing else *)
-Theorem defer_repair_conservative : forall doc,
-  let o := gd_doc_walk_obs doc in
-  let o' := gd_doc_walk_obs_old doc in
+(* the repair of validate_defer adds that one diagnostic and nothing else *)
+Theorem defer_repair_conservative : forall ty doc,
+  let o := gd_doc_walk_obs ty doc in
+  let o' := gd_doc_walk_obs_old ty doc in
   gwo_used_limit o = gwo_used_limit o' /\ gwo_defer_root o = gwo_defer_root o' /\
   gwo_uncond o = gwo_uncond o' /\ gwo_defer_truncated o = gwo_defer_truncated o' /\
-  gwo_recursion o = gwo_recursion o' + gd_b2n (gwo_defer_truncated o' && (gwo_used_limit o' =? 0)).
+  gwo_sel_limit o = gwo_sel_limit o' /\ gwo_undefined o = gwo_undefined o' /\
+  gwo_recursion o
+  = gwo_recursion o' + gd_b2n (gwo_defer_truncated o' && (gwo_used_limit o' =? 0) && (gwo_sel_limit o' =? 0)).
 Proof.
-  intros doc. unfold gd_doc_walk_obs, gd_doc_walk_obs_old. cbv zeta.
-  destruct (dr_obs_shape true doc) as (subs & Hr & Hu & Hall). cbv zeta in Hr, Hu, Hall.
-  destruct (Hall false) as (Hr' & Hu' & Hd' & Hc' & Ht').
+  intros ty doc. unfold gd_doc_walk_obs, gd_doc_walk_obs_old. cbv zeta.
+  destruct (dr_obs_shape true ty doc) as (subs & Hr & Hu & Hs & Hall). cbv zeta in Hr, Hu, Hs, Hall.
+  destruct (Hall false) as (Hr' & Hu' & Hd' & Hc' & Ht' & Hs' & Hx').
   repeat split; try assumption.
-  rewrite Hr', Hr, Ht', Hu. cbn [negb andb gd_b2n].
-  destruct (gwo_defer_truncated (gd_doc_walk_obs_with true doc));
-    destruct (existsb (fun b => b) (dr_dedup doc)); cbn [negb andb gd_b2n];
+  rewrite Hr', Hr, Ht', Hu, Hs, gd_b2n_sum_zero. cbn [negb andb gd_b2n].
+  destruct (gwo_defer_truncated (gd_doc_walk_obs_with true ty doc));
+    destruct (existsb (fun b => b) (dr_dedup doc)); destruct (existsb (fun b => b) (dr_sel ty doc));
+    cbn [negb andb orb gd_b2n];
     generalize (fold_right N.add 0 (map gd_b2n (dr_dedup doc))); intros k;
-    change (1 =? 0) with false; change (0 =? 0) with true; cbn [gd_b2n]; lia.
+    generalize (fold_right N.add 0 (map gd_b2n (dr_sel ty doc))); intros k2;
+    change (1 =? 0) with false; change (0 =? 0) with true; cbn [negb andb gd_b2n]; lia.
 Qed.
